@@ -214,7 +214,18 @@ func isCharClassPlus(re *syntax.Regexp) bool {
 	if len(re.Sub) != 1 {
 		return false
 	}
-	return re.Sub[0].Op == syntax.OpCharClass
+	if re.Sub[0].Op != syntax.OpCharClass {
+		return false
+	}
+	// The bridge is a 256-entry table indexed by haystack BYTE, so only pure
+	// ASCII classes can be represented: a rune above U+007F is several bytes
+	// in the haystack ([α-ω] never matched, [©®] matched bytes of other runes).
+	for _, r := range re.Sub[0].Rune {
+		if r > 0x7F {
+			return false
+		}
+	}
+	return true
 }
 
 // extractLiteral extracts bytes from a Literal node.
